@@ -494,9 +494,15 @@ class CallOperation(_ConsumerBase):
         was = z3.Select(z3.Select(st0.get_arr('DK'), self.tr.e), tid)
         ex.oblige(st, 'registered_iff_not_completed', z3.Implies(z3.Not(was), registered == z3.BoolVal(len(completed) == 0)))
         ex.oblige(st, 'returns_the_future', st.box(outcome[1]) == Val.ref(st.ghost['c:future'].e))
+        if 'c:direct_parts' in st.ghost:
+            # completion from the response alone (no report part): only a failed / cancelled response may do that -
+            # a successful one must wait for its final report part ("... with the final state and all related parts")
+            ex.oblige(st, 'completion_without_report_only_for_failed_or_cancelled_response', failed)
         if 'c:result_args' in st.ghost:
             part, resp, parts = st.ghost['c:result_args']
             ex.oblige(st, 'completion_carries_this_response', resp == Val.ref(self.resp.e))
+            ex.oblige(st, 'completing_part_is_a_final_part', z3.And(
+                self.part_state(st, part) != state_val('WAIT'), self.part_state(st, part) != state_val('START')))
 
 
 @register
